@@ -8,144 +8,144 @@ Local Open Scope R_scope.
 
 Theorem C23_rt_pk2_cauchy_full : forall a b : nat -> R,
   (det2 (full_t 3%nat b) <> 0 -> rt_pk2_cauchy_3 a b = flat_s 3%nat (spec_rt_pk2_cauchy 3%nat (full_s 3%nat a) (full_t 3%nat b))).
-Proof. intros; exact (rt_pk2_cauchy_3_ok a b). Qed.
+Proof. intros a b; exact (rt_pk2_cauchy_3_ok a b). Qed.
 Print Assumptions C23_rt_pk2_cauchy_full.
 
 Theorem C23_SPATIAL_MODULI_from_DS_DEGL_full : forall a b c d : nat -> R,
   (SPATIAL_MODULI_from_DS_DEGL_3 a b c d = flat_A 3%nat (spec_SPATIAL_MODULI_from_DS_DEGL 3%nat (full_A 3%nat a) (full_t 3%nat b) (full_t 3%nat c) (full_s 3%nat d))).
-Proof. intros; exact (SPATIAL_MODULI_from_DS_DEGL_3_ok a b c d). Qed.
+Proof. intros a b c d; exact (SPATIAL_MODULI_from_DS_DEGL_3_ok a b c d). Qed.
 Print Assumptions C23_SPATIAL_MODULI_from_DS_DEGL_full.
 
 Theorem C23_C_TRUESDELL_from_DS_DEGL_full : forall a b c d : nat -> R,
   (det2 (full_t 3%nat c) <> 0 -> C_TRUESDELL_from_DS_DEGL_3 a b c d = flat_A 3%nat (spec_C_TRUESDELL_from_DS_DEGL 3%nat (full_A 3%nat a) (full_t 3%nat b) (full_t 3%nat c) (full_s 3%nat d))).
-Proof. intros; exact (C_TRUESDELL_from_DS_DEGL_3_ok a b c d). Qed.
+Proof. intros a b c d; exact (C_TRUESDELL_from_DS_DEGL_3_ok a b c d). Qed.
 Print Assumptions C23_C_TRUESDELL_from_DS_DEGL_full.
 
 Theorem C23_DSIG_DF_from_DSIG_DDF_full : forall a b c d : nat -> R,
   (det2 (full_t 3%nat b) <> 0 -> DSIG_DF_from_DSIG_DDF_3 a b c d = flat_C 3%nat (spec_DSIG_DF_from_DSIG_DDF 3%nat (full_C 3%nat a) (full_t 3%nat b) (full_t 3%nat c) (full_s 3%nat d))).
-Proof. intros; exact (DSIG_DF_from_DSIG_DDF_3_ok a b c d). Qed.
+Proof. intros a b c d; exact (DSIG_DF_from_DSIG_DDF_3_ok a b c d). Qed.
 Print Assumptions C23_DSIG_DF_from_DSIG_DDF_full.
 
 Theorem C23_DTAU_DF_from_DTAU_DDF_full : forall a b c d : nat -> R,
   (det2 (full_t 3%nat b) <> 0 -> DTAU_DF_from_DTAU_DDF_3 a b c d = flat_C 3%nat (spec_DTAU_DF_from_DTAU_DDF 3%nat (full_C 3%nat a) (full_t 3%nat b) (full_t 3%nat c) (full_s 3%nat d))).
-Proof. intros; exact (DTAU_DF_from_DTAU_DDF_3_ok a b c d). Qed.
+Proof. intros a b c d; exact (DTAU_DF_from_DTAU_DDF_3_ok a b c d). Qed.
 Print Assumptions C23_DTAU_DF_from_DTAU_DDF_full.
 
 Theorem C23_DSIG_DF_from_DTAU_DF_full : forall a b c d : nat -> R,
   (det2 (full_t 3%nat c) <> 0 -> DSIG_DF_from_DTAU_DF_3 a b c d = flat_C 3%nat (spec_DSIG_DF_from_DTAU_DF 3%nat (full_C 3%nat a) (full_t 3%nat b) (full_t 3%nat c) (full_s 3%nat d))).
-Proof. intros; exact (DSIG_DF_from_DTAU_DF_3_ok a b c d). Qed.
+Proof. intros a b c d; exact (DSIG_DF_from_DTAU_DF_3_ok a b c d). Qed.
 Print Assumptions C23_DSIG_DF_from_DTAU_DF_full.
 
 Theorem C23_ABAQUS_from_DS_DEGL_full : forall a b c d : nat -> R,
   (det2 (full_t 3%nat c) <> 0 -> ABAQUS_from_DS_DEGL_3 a b c d = flat_A 3%nat (spec_ABAQUS_from_DS_DEGL 3%nat (full_A 3%nat a) (full_t 3%nat b) (full_t 3%nat c) (full_s 3%nat d))).
-Proof. intros; exact (ABAQUS_from_DS_DEGL_3_ok a b c d). Qed.
+Proof. intros a b c d; exact (ABAQUS_from_DS_DEGL_3_ok a b c d). Qed.
 Print Assumptions C23_ABAQUS_from_DS_DEGL_full.
 
 Theorem C23_DS_DEGL_from_SPATIAL_MODULI_full : forall a b c d : nat -> R,
   (det2 (full_t 1%nat c) <> 0 -> DS_DEGL_from_SPATIAL_MODULI_1 a b c d = flat_A 1%nat (spec_DS_DEGL_from_SPATIAL_MODULI 1%nat (full_A 1%nat a) (full_t 1%nat b) (full_t 1%nat c) (full_s 1%nat d))) /\
   (det2 (full_t 2%nat c) <> 0 -> DS_DEGL_from_SPATIAL_MODULI_2 a b c d = flat_A 2%nat (spec_DS_DEGL_from_SPATIAL_MODULI 2%nat (full_A 2%nat a) (full_t 2%nat b) (full_t 2%nat c) (full_s 2%nat d))) /\
   (det2 (full_t 3%nat c) <> 0 -> DS_DEGL_from_SPATIAL_MODULI_3 a b c d = flat_A 3%nat (spec_DS_DEGL_from_SPATIAL_MODULI 3%nat (full_A 3%nat a) (full_t 3%nat b) (full_t 3%nat c) (full_s 3%nat d))).
-Proof. intros; exact (conj (DS_DEGL_from_SPATIAL_MODULI_1_ok a b c d) (conj (DS_DEGL_from_SPATIAL_MODULI_2_ok a b c d) (DS_DEGL_from_SPATIAL_MODULI_3_ok a b c d))). Qed.
+Proof. intros a b c d; exact (conj (DS_DEGL_from_SPATIAL_MODULI_1_ok a b c d) (conj (DS_DEGL_from_SPATIAL_MODULI_2_ok a b c d) (DS_DEGL_from_SPATIAL_MODULI_3_ok a b c d))). Qed.
 Print Assumptions C23_DS_DEGL_from_SPATIAL_MODULI_full.
 
 Theorem C23_DTAU_DF_from_DS_DF_full : forall a b c d : nat -> R,
   (det2 (full_t 1%nat c) <> 0 -> DTAU_DF_from_DS_DF_1 a b c d = flat_C 1%nat (spec_DTAU_DF_from_DS_DF 1%nat (full_C 1%nat a) (full_t 1%nat b) (full_t 1%nat c) (full_s 1%nat d))) /\
   (det2 (full_t 2%nat c) <> 0 -> DTAU_DF_from_DS_DF_2 a b c d = flat_C 2%nat (spec_DTAU_DF_from_DS_DF 2%nat (full_C 2%nat a) (full_t 2%nat b) (full_t 2%nat c) (full_s 2%nat d))) /\
   (det2 (full_t 3%nat c) <> 0 -> DTAU_DF_from_DS_DF_3 a b c d = flat_C 3%nat (spec_DTAU_DF_from_DS_DF 3%nat (full_C 3%nat a) (full_t 3%nat b) (full_t 3%nat c) (full_s 3%nat d))).
-Proof. intros; exact (conj (DTAU_DF_from_DS_DF_1_ok a b c d) (conj (DTAU_DF_from_DS_DF_2_ok a b c d) (DTAU_DF_from_DS_DF_3_ok a b c d))). Qed.
+Proof. intros a b c d; exact (conj (DTAU_DF_from_DS_DF_1_ok a b c d) (conj (DTAU_DF_from_DS_DF_2_ok a b c d) (DTAU_DF_from_DS_DF_3_ok a b c d))). Qed.
 Print Assumptions C23_DTAU_DF_from_DS_DF_full.
 
 Theorem C23_DTAU_DF_from_C_TAU_JAUMANN_full : forall a b c d : nat -> R,
   (det2 (full_t 1%nat c) <> 0 -> DTAU_DF_from_C_TAU_JAUMANN_1 a b c d = flat_C 1%nat (spec_DTAU_DF_from_C_TAU_JAUMANN 1%nat (full_A 1%nat a) (full_t 1%nat b) (full_t 1%nat c) (full_s 1%nat d))) /\
   (det2 (full_t 2%nat c) <> 0 -> DTAU_DF_from_C_TAU_JAUMANN_2 a b c d = flat_C 2%nat (spec_DTAU_DF_from_C_TAU_JAUMANN 2%nat (full_A 2%nat a) (full_t 2%nat b) (full_t 2%nat c) (full_s 2%nat d))) /\
   (det2 (full_t 3%nat c) <> 0 -> DTAU_DF_from_C_TAU_JAUMANN_3 a b c d = flat_C 3%nat (spec_DTAU_DF_from_C_TAU_JAUMANN 3%nat (full_A 3%nat a) (full_t 3%nat b) (full_t 3%nat c) (full_s 3%nat d))).
-Proof. intros; exact (conj (DTAU_DF_from_C_TAU_JAUMANN_1_ok a b c d) (conj (DTAU_DF_from_C_TAU_JAUMANN_2_ok a b c d) (DTAU_DF_from_C_TAU_JAUMANN_3_ok a b c d))). Qed.
+Proof. intros a b c d; exact (conj (DTAU_DF_from_C_TAU_JAUMANN_1_ok a b c d) (conj (DTAU_DF_from_C_TAU_JAUMANN_2_ok a b c d) (DTAU_DF_from_C_TAU_JAUMANN_3_ok a b c d))). Qed.
 Print Assumptions C23_DTAU_DF_from_C_TAU_JAUMANN_full.
 
 Theorem C23_DTAU_DF_from_ABAQUS_full : forall a b c d : nat -> R,
   (det2 (full_t 1%nat c) <> 0 -> DTAU_DF_from_ABAQUS_1 a b c d = flat_C 1%nat (spec_DTAU_DF_from_ABAQUS 1%nat (full_A 1%nat a) (full_t 1%nat b) (full_t 1%nat c) (full_s 1%nat d))) /\
   (det2 (full_t 2%nat c) <> 0 -> DTAU_DF_from_ABAQUS_2 a b c d = flat_C 2%nat (spec_DTAU_DF_from_ABAQUS 2%nat (full_A 2%nat a) (full_t 2%nat b) (full_t 2%nat c) (full_s 2%nat d))) /\
   (det2 (full_t 3%nat c) <> 0 -> DTAU_DF_from_ABAQUS_3 a b c d = flat_C 3%nat (spec_DTAU_DF_from_ABAQUS 3%nat (full_A 3%nat a) (full_t 3%nat b) (full_t 3%nat c) (full_s 3%nat d))).
-Proof. intros; exact (conj (DTAU_DF_from_ABAQUS_1_ok a b c d) (conj (DTAU_DF_from_ABAQUS_2_ok a b c d) (DTAU_DF_from_ABAQUS_3_ok a b c d))). Qed.
+Proof. intros a b c d; exact (conj (DTAU_DF_from_ABAQUS_1_ok a b c d) (conj (DTAU_DF_from_ABAQUS_2_ok a b c d) (DTAU_DF_from_ABAQUS_3_ok a b c d))). Qed.
 Print Assumptions C23_DTAU_DF_from_ABAQUS_full.
 
 Theorem C23_DTAU_DF_from_SPATIAL_MODULI_full : forall a b c d : nat -> R,
   (det2 (full_t 1%nat c) <> 0 -> DTAU_DF_from_SPATIAL_MODULI_1 a b c d = flat_C 1%nat (spec_DTAU_DF_from_SPATIAL_MODULI 1%nat (full_A 1%nat a) (full_t 1%nat b) (full_t 1%nat c) (full_s 1%nat d))) /\
   (det2 (full_t 2%nat c) <> 0 -> DTAU_DF_from_SPATIAL_MODULI_2 a b c d = flat_C 2%nat (spec_DTAU_DF_from_SPATIAL_MODULI 2%nat (full_A 2%nat a) (full_t 2%nat b) (full_t 2%nat c) (full_s 2%nat d))) /\
   (det2 (full_t 3%nat c) <> 0 -> DTAU_DF_from_SPATIAL_MODULI_3 a b c d = flat_C 3%nat (spec_DTAU_DF_from_SPATIAL_MODULI 3%nat (full_A 3%nat a) (full_t 3%nat b) (full_t 3%nat c) (full_s 3%nat d))).
-Proof. intros; exact (conj (DTAU_DF_from_SPATIAL_MODULI_1_ok a b c d) (conj (DTAU_DF_from_SPATIAL_MODULI_2_ok a b c d) (DTAU_DF_from_SPATIAL_MODULI_3_ok a b c d))). Qed.
+Proof. intros a b c d; exact (conj (DTAU_DF_from_SPATIAL_MODULI_1_ok a b c d) (conj (DTAU_DF_from_SPATIAL_MODULI_2_ok a b c d) (DTAU_DF_from_SPATIAL_MODULI_3_ok a b c d))). Qed.
 Print Assumptions C23_DTAU_DF_from_SPATIAL_MODULI_full.
 
 Theorem C23_DSIG_DF_from_DS_DEGL_full : forall a b c d : nat -> R,
   (det2 (full_t 1%nat c) <> 0 -> DSIG_DF_from_DS_DEGL_1 a b c d = flat_C 1%nat (spec_DSIG_DF_from_DS_DEGL 1%nat (full_A 1%nat a) (full_t 1%nat b) (full_t 1%nat c) (full_s 1%nat d))) /\
   (det2 (full_t 2%nat c) <> 0 -> DSIG_DF_from_DS_DEGL_2 a b c d = flat_C 2%nat (spec_DSIG_DF_from_DS_DEGL 2%nat (full_A 2%nat a) (full_t 2%nat b) (full_t 2%nat c) (full_s 2%nat d))) /\
   (det2 (full_t 3%nat c) <> 0 -> DSIG_DF_from_DS_DEGL_3 a b c d = flat_C 3%nat (spec_DSIG_DF_from_DS_DEGL 3%nat (full_A 3%nat a) (full_t 3%nat b) (full_t 3%nat c) (full_s 3%nat d))).
-Proof. intros; exact (conj (DSIG_DF_from_DS_DEGL_1_ok a b c d) (conj (DSIG_DF_from_DS_DEGL_2_ok a b c d) (DSIG_DF_from_DS_DEGL_3_ok a b c d))). Qed.
+Proof. intros a b c d; exact (conj (DSIG_DF_from_DS_DEGL_1_ok a b c d) (conj (DSIG_DF_from_DS_DEGL_2_ok a b c d) (DSIG_DF_from_DS_DEGL_3_ok a b c d))). Qed.
 Print Assumptions C23_DSIG_DF_from_DS_DEGL_full.
 
 Theorem C23_DSIG_DF_from_C_TRUESDELL_full : forall a b c d : nat -> R,
   (det2 (full_t 1%nat c) <> 0 -> DSIG_DF_from_C_TRUESDELL_1 a b c d = flat_C 1%nat (spec_DSIG_DF_from_C_TRUESDELL 1%nat (full_A 1%nat a) (full_t 1%nat b) (full_t 1%nat c) (full_s 1%nat d))) /\
   (det2 (full_t 2%nat c) <> 0 -> DSIG_DF_from_C_TRUESDELL_2 a b c d = flat_C 2%nat (spec_DSIG_DF_from_C_TRUESDELL 2%nat (full_A 2%nat a) (full_t 2%nat b) (full_t 2%nat c) (full_s 2%nat d))) /\
   (det2 (full_t 3%nat c) <> 0 -> DSIG_DF_from_C_TRUESDELL_3 a b c d = flat_C 3%nat (spec_DSIG_DF_from_C_TRUESDELL 3%nat (full_A 3%nat a) (full_t 3%nat b) (full_t 3%nat c) (full_s 3%nat d))).
-Proof. intros; exact (conj (DSIG_DF_from_C_TRUESDELL_1_ok a b c d) (conj (DSIG_DF_from_C_TRUESDELL_2_ok a b c d) (DSIG_DF_from_C_TRUESDELL_3_ok a b c d))). Qed.
+Proof. intros a b c d; exact (conj (DSIG_DF_from_C_TRUESDELL_1_ok a b c d) (conj (DSIG_DF_from_C_TRUESDELL_2_ok a b c d) (DSIG_DF_from_C_TRUESDELL_3_ok a b c d))). Qed.
 Print Assumptions C23_DSIG_DF_from_C_TRUESDELL_full.
 
 Theorem C23_DSIG_DF_from_ABAQUS_full : forall a b c d : nat -> R,
   (det2 (full_t 1%nat c) <> 0 -> DSIG_DF_from_ABAQUS_1 a b c d = flat_C 1%nat (spec_DSIG_DF_from_ABAQUS 1%nat (full_A 1%nat a) (full_t 1%nat b) (full_t 1%nat c) (full_s 1%nat d))) /\
   (det2 (full_t 2%nat c) <> 0 -> DSIG_DF_from_ABAQUS_2 a b c d = flat_C 2%nat (spec_DSIG_DF_from_ABAQUS 2%nat (full_A 2%nat a) (full_t 2%nat b) (full_t 2%nat c) (full_s 2%nat d))) /\
   (det2 (full_t 3%nat c) <> 0 -> DSIG_DF_from_ABAQUS_3 a b c d = flat_C 3%nat (spec_DSIG_DF_from_ABAQUS 3%nat (full_A 3%nat a) (full_t 3%nat b) (full_t 3%nat c) (full_s 3%nat d))).
-Proof. intros; exact (conj (DSIG_DF_from_ABAQUS_1_ok a b c d) (conj (DSIG_DF_from_ABAQUS_2_ok a b c d) (DSIG_DF_from_ABAQUS_3_ok a b c d))). Qed.
+Proof. intros a b c d; exact (conj (DSIG_DF_from_ABAQUS_1_ok a b c d) (conj (DSIG_DF_from_ABAQUS_2_ok a b c d) (DSIG_DF_from_ABAQUS_3_ok a b c d))). Qed.
 Print Assumptions C23_DSIG_DF_from_ABAQUS_full.
 
 Theorem C23_DPK1_DF_from_DSIG_DF_full : forall a b c d : nat -> R,
   (det2 (full_t 1%nat c) <> 0 -> DPK1_DF_from_DSIG_DF_1 a b c d = flat_B 1%nat (spec_DPK1_DF_from_DSIG_DF 1%nat (full_C 1%nat a) (full_t 1%nat b) (full_t 1%nat c) (full_s 1%nat d))) /\
   (det2 (full_t 2%nat c) <> 0 -> DPK1_DF_from_DSIG_DF_2 a b c d = flat_B 2%nat (spec_DPK1_DF_from_DSIG_DF 2%nat (full_C 2%nat a) (full_t 2%nat b) (full_t 2%nat c) (full_s 2%nat d))) /\
   (det2 (full_t 3%nat c) <> 0 -> DPK1_DF_from_DSIG_DF_3 a b c d = flat_B 3%nat (spec_DPK1_DF_from_DSIG_DF 3%nat (full_C 3%nat a) (full_t 3%nat b) (full_t 3%nat c) (full_s 3%nat d))).
-Proof. intros; exact (conj (DPK1_DF_from_DSIG_DF_1_ok a b c d) (conj (DPK1_DF_from_DSIG_DF_2_ok a b c d) (DPK1_DF_from_DSIG_DF_3_ok a b c d))). Qed.
+Proof. intros a b c d; exact (conj (DPK1_DF_from_DSIG_DF_1_ok a b c d) (conj (DPK1_DF_from_DSIG_DF_2_ok a b c d) (DPK1_DF_from_DSIG_DF_3_ok a b c d))). Qed.
 Print Assumptions C23_DPK1_DF_from_DSIG_DF_full.
 
 Theorem C23_DTAU_DF_from_DPK1_DF_full : forall a b c d : nat -> R,
   (det2 (full_t 1%nat c) <> 0 -> DTAU_DF_from_DPK1_DF_1 a b c d = flat_C 1%nat (spec_DTAU_DF_from_DPK1_DF 1%nat (full_B 1%nat a) (full_t 1%nat b) (full_t 1%nat c) (full_s 1%nat d))) /\
   (det2 (full_t 2%nat c) <> 0 -> DTAU_DF_from_DPK1_DF_2 a b c d = flat_C 2%nat (spec_DTAU_DF_from_DPK1_DF 2%nat (full_B 2%nat a) (full_t 2%nat b) (full_t 2%nat c) (full_s 2%nat d))) /\
   (det2 (full_t 3%nat c) <> 0 -> DTAU_DF_from_DPK1_DF_3 a b c d = flat_C 3%nat (spec_DTAU_DF_from_DPK1_DF 3%nat (full_B 3%nat a) (full_t 3%nat b) (full_t 3%nat c) (full_s 3%nat d))).
-Proof. intros; exact (conj (DTAU_DF_from_DPK1_DF_1_ok a b c d) (conj (DTAU_DF_from_DPK1_DF_2_ok a b c d) (DTAU_DF_from_DPK1_DF_3_ok a b c d))). Qed.
+Proof. intros a b c d; exact (conj (DTAU_DF_from_DPK1_DF_1_ok a b c d) (conj (DTAU_DF_from_DPK1_DF_2_ok a b c d) (DTAU_DF_from_DPK1_DF_3_ok a b c d))). Qed.
 Print Assumptions C23_DTAU_DF_from_DPK1_DF_full.
 
 Theorem C23_DSIG_DF_from_DPK1_DF_full : forall a b c d : nat -> R,
   (det2 (full_t 1%nat c) <> 0 -> DSIG_DF_from_DPK1_DF_1 a b c d = flat_C 1%nat (spec_DSIG_DF_from_DPK1_DF 1%nat (full_B 1%nat a) (full_t 1%nat b) (full_t 1%nat c) (full_s 1%nat d))) /\
   (det2 (full_t 2%nat c) <> 0 -> DSIG_DF_from_DPK1_DF_2 a b c d = flat_C 2%nat (spec_DSIG_DF_from_DPK1_DF 2%nat (full_B 2%nat a) (full_t 2%nat b) (full_t 2%nat c) (full_s 2%nat d))) /\
   (det2 (full_t 3%nat c) <> 0 -> DSIG_DF_from_DPK1_DF_3 a b c d = flat_C 3%nat (spec_DSIG_DF_from_DPK1_DF 3%nat (full_B 3%nat a) (full_t 3%nat b) (full_t 3%nat c) (full_s 3%nat d))).
-Proof. intros; exact (conj (DSIG_DF_from_DPK1_DF_1_ok a b c d) (conj (DSIG_DF_from_DPK1_DF_2_ok a b c d) (DSIG_DF_from_DPK1_DF_3_ok a b c d))). Qed.
+Proof. intros a b c d; exact (conj (DSIG_DF_from_DPK1_DF_1_ok a b c d) (conj (DSIG_DF_from_DPK1_DF_2_ok a b c d) (DSIG_DF_from_DPK1_DF_3_ok a b c d))). Qed.
 Print Assumptions C23_DSIG_DF_from_DPK1_DF_full.
 
 Theorem C23_DPK1_DF_from_DS_DEGL_full : forall a b c d : nat -> R,
   (det2 (full_t 1%nat c) <> 0 -> DPK1_DF_from_DS_DEGL_1 a b c d = flat_B 1%nat (spec_DPK1_DF_from_DS_DEGL 1%nat (full_A 1%nat a) (full_t 1%nat b) (full_t 1%nat c) (full_s 1%nat d))) /\
   (det2 (full_t 2%nat c) <> 0 -> DPK1_DF_from_DS_DEGL_2 a b c d = flat_B 2%nat (spec_DPK1_DF_from_DS_DEGL 2%nat (full_A 2%nat a) (full_t 2%nat b) (full_t 2%nat c) (full_s 2%nat d))) /\
   (det2 (full_t 3%nat c) <> 0 -> DPK1_DF_from_DS_DEGL_3 a b c d = flat_B 3%nat (spec_DPK1_DF_from_DS_DEGL 3%nat (full_A 3%nat a) (full_t 3%nat b) (full_t 3%nat c) (full_s 3%nat d))).
-Proof. intros; exact (conj (DPK1_DF_from_DS_DEGL_1_ok a b c d) (conj (DPK1_DF_from_DS_DEGL_2_ok a b c d) (DPK1_DF_from_DS_DEGL_3_ok a b c d))). Qed.
+Proof. intros a b c d; exact (conj (DPK1_DF_from_DS_DEGL_1_ok a b c d) (conj (DPK1_DF_from_DS_DEGL_2_ok a b c d) (DPK1_DF_from_DS_DEGL_3_ok a b c d))). Qed.
 Print Assumptions C23_DPK1_DF_from_DS_DEGL_full.
 
 Theorem C23_rt_DSIG_DF_DSIG_DDF_full : forall a b c d : nat -> R,
   (det2 (full_t 3%nat b) <> 0 -> rt_DSIG_DF_DSIG_DDF_3 a b c d = flat_C 3%nat (spec_rt_DSIG_DF_DSIG_DDF 3%nat (full_C 3%nat a) (full_t 3%nat b) (full_t 3%nat c) (full_s 3%nat d))).
-Proof. intros; exact (rt_DSIG_DF_DSIG_DDF_3_ok a b c d). Qed.
+Proof. intros a b c d; exact (rt_DSIG_DF_DSIG_DDF_3_ok a b c d). Qed.
 Print Assumptions C23_rt_DSIG_DF_DSIG_DDF_full.
 
 Theorem C23_rt_DTAU_DF_DTAU_DDF_full : forall a b c d : nat -> R,
   (det2 (full_t 3%nat b) <> 0 -> rt_DTAU_DF_DTAU_DDF_3 a b c d = flat_C 3%nat (spec_rt_DTAU_DF_DTAU_DDF 3%nat (full_C 3%nat a) (full_t 3%nat b) (full_t 3%nat c) (full_s 3%nat d))).
-Proof. intros; exact (rt_DTAU_DF_DTAU_DDF_3_ok a b c d). Qed.
+Proof. intros a b c d; exact (rt_DTAU_DF_DTAU_DDF_3_ok a b c d). Qed.
 Print Assumptions C23_rt_DTAU_DF_DTAU_DDF_full.
 
 Theorem C23_rt_DS_DEGL_SPATIAL_MODULI_full : forall a b c d : nat -> R,
   (det2 (full_t 3%nat c) <> 0 -> rt_DS_DEGL_SPATIAL_MODULI_3 a b c d = flat_A 3%nat (spec_rt_DS_DEGL_SPATIAL_MODULI 3%nat (full_A 3%nat a) (full_t 3%nat b) (full_t 3%nat c) (full_s 3%nat d))).
-Proof. intros; exact (rt_DS_DEGL_SPATIAL_MODULI_3_ok a b c d). Qed.
+Proof. intros a b c d; exact (rt_DS_DEGL_SPATIAL_MODULI_3_ok a b c d). Qed.
 Print Assumptions C23_rt_DS_DEGL_SPATIAL_MODULI_full.
 
 Theorem C23_rt_C_TAU_JAUMANN_DTAU_DF_full : forall a b c d : nat -> R,
   (det2 (full_t 3%nat c) <> 0 -> rt_C_TAU_JAUMANN_DTAU_DF_3 a b c d = flat_A 3%nat (spec_rt_C_TAU_JAUMANN_DTAU_DF 3%nat (full_A 3%nat a) (full_t 3%nat b) (full_t 3%nat c) (full_s 3%nat d))).
-Proof. intros; exact (rt_C_TAU_JAUMANN_DTAU_DF_3_ok a b c d). Qed.
+Proof. intros a b c d; exact (rt_C_TAU_JAUMANN_DTAU_DF_3_ok a b c d). Qed.
 Print Assumptions C23_rt_C_TAU_JAUMANN_DTAU_DF_full.
 
 Theorem C23_rt_SPATIAL_MODULI_DTAU_DF_full : forall a b c d : nat -> R,
   (det2 (full_t 3%nat c) <> 0 -> rt_SPATIAL_MODULI_DTAU_DF_3 a b c d = flat_A 3%nat (spec_rt_SPATIAL_MODULI_DTAU_DF 3%nat (full_A 3%nat a) (full_t 3%nat b) (full_t 3%nat c) (full_s 3%nat d))).
-Proof. intros; exact (rt_SPATIAL_MODULI_DTAU_DF_3_ok a b c d). Qed.
+Proof. intros a b c d; exact (rt_SPATIAL_MODULI_DTAU_DF_3_ok a b c d). Qed.
 Print Assumptions C23_rt_SPATIAL_MODULI_DTAU_DF_full.
